@@ -328,9 +328,21 @@ func VerifC19_AddressesForDuties() {
 		}
 		return true
 	}
+	// what the longest-prefix rule gives for each path before the per-duty lists are asked for
+	// (copies: viper hands out the very slice it stores)
+	watched := []string{"", "strategies", "strategies.beaconblockproposal.best", "strategies.beaconblockproposal.first", "strategies.blindedbeaconblockproposal.first", "strategies.attestationdata.best", "strategies.attestationdata.majority", "submitter"}
+	before := make([][]string, len(watched))
+	for i, p := range watched {
+		before[i] = append([]string{}, BeaconNodeAddresses(p)...)
+	}
 	wantP := union(pathFor("beaconblockproposal", ps, "best", "first"), pathFor("blindedbeaconblockproposal", bs, "best", "first"))
 	vnd.Assert(same(BeaconNodeAddressesForProposing(), wantP), "C19.duties.proposing-nodes-are-those-of-the-styles-in-use")
 	wantA := union(pathFor("attestationdata", as, "best", "first", "majority"))
 	vnd.Assert(same(BeaconNodeAddressesForAttesting(), wantA), "C19.duties.attesting-nodes-are-those-of-the-style-in-use")
+	// asking for the per-duty lists (start-up does, before the services are built) leaves every
+	// later lookup with the value that was configured, in the order it was configured
+	for i, p := range watched {
+		vnd.Assert(same(BeaconNodeAddresses(p), before[i]), "C19.duties.later-lookups-still-get-the-configured-value")
+	}
 	vnd.Cover("C19.duties.checked")
 }
